@@ -434,4 +434,5 @@ def run(run: Run):
     run.floor('C07.R9', 40)
     from .common import shared_mechanisms as _shared
     _shared(run, 'C07', 8, ['rejections'])
+    _shared(run, 'C07', 10, ['stored-values'])
     return INFO
